@@ -107,13 +107,15 @@ Section Spec.
         end
     | COMMIT, Some w => has_vote vs (V (sender v) (round v) PREPARE (Some w)) && sqb vs (round v) PREPARE (Some w)
     | COMMIT, None =>
-        existsb (fun pv => Nat.eqb (sender pv) (sender v) && Nat.eqb (round pv) (round v) && phase_eqb (ph pv) PREPARE &&
+        (* `if .. then .. else false` instead of `&&`: under vm_compute (call by value) the expensive right operand is then
+           evaluated only for the few votes that pass the cheap tests *)
+        existsb (fun pv => if Nat.eqb (sender pv) (sender v) && Nat.eqb (round pv) (round v) && phase_eqb (ph pv) PREPARE then
                    match vl pv with
-                   | Some w => existsb (fun ov => Nat.eqb (round ov) (round v) && phase_eqb (ph ov) PREPARE &&
-                                              negb (val_eqb (vl ov) (Some w)) && justifiedb vs (round v) (vl ov)) vs
+                   | Some w => existsb (fun ov => if Nat.eqb (round ov) (round v) && phase_eqb (ph ov) PREPARE &&
+                                                     negb (val_eqb (vl ov) (Some w)) then justifiedb vs (round v) (vl ov) else false) vs
                    | None => false
-                   end) vs
-    | DECIDE, Some w => Nat.eqb (round v) 0 && existsb (fun cv => phase_eqb (ph cv) COMMIT && val_eqb (vl cv) (Some w) && sqb vs (round cv) COMMIT (Some w)) vs
+                   end else false) vs
+    | DECIDE, Some w => Nat.eqb (round v) 0 && existsb (fun cv => if phase_eqb (ph cv) COMMIT && val_eqb (vl cv) (Some w) then sqb vs (round cv) COMMIT (Some w) else false) vs
     | _, None => false
     end.
 
